@@ -4,8 +4,10 @@ import (
 	"bytes"
 	"errors"
 	"fmt"
+	"reflect"
 	"strings"
 	"testing"
+	"time"
 
 	"pgregory.net/rapid"
 
@@ -52,6 +54,67 @@ type zWrap struct {
 	Name  string
 	Outer *zOuter
 	Inner zInner
+}
+
+// Types whose encoding methods have pointer receivers: which encoder a field gets then depends on whether the
+// value is addressable, and the per-type field plans are cached across calls.
+type zStamp struct{ Sec int }
+
+func (s *zStamp) MarshalJSON() ([]byte, error) { return []byte(fmt.Sprintf(`"#%d"`, s.Sec)), nil }
+
+type zText struct{ V string }
+
+func (t *zText) MarshalText() ([]byte, error) { return []byte("txt:" + t.V), nil }
+
+type zSimp struct{ V int }
+
+func (s *zSimp) Simplify() any { return map[string]any{"simp": s.V} }
+
+type zValM struct{ V int }
+
+func (v zValM) MarshalJSON() ([]byte, error) { return []byte(fmt.Sprintf(`{"valm":%d}`, v.V)), nil }
+
+type zItem struct {
+	Stamp zStamp
+	Txt   zText
+	Simp  zSimp
+	Val   zValM
+	PS    *zStamp
+	N     int
+}
+
+type zBox struct {
+	Item  zItem
+	Items []zItem
+	M     map[string]zItem
+	P     *zItem
+	A     [2]zItem
+	PL    []*zItem
+}
+
+// (holders that reach zItem in one way only: which holder is written first decides how the cached plan of
+// zItem comes to be built)
+type zBoxV struct {
+	Item  zItem
+	Items []zItem
+}
+
+type zBoxA struct{ A [2]zItem }
+
+type zBoxM struct{ M map[string]zItem }
+
+type zBoxP struct{ P *zItem }
+
+// (an item whose only self-encoding member has a value receiver - like a time.Time member -, and its holder)
+type zItemV struct {
+	Val zValM
+	At  time.Time
+	N   int
+}
+
+type zBoxVV struct {
+	Item  zItemV
+	Items []zItemV
 }
 
 // boom is a Simplifier that panics while it is being written when armed.
@@ -177,7 +240,85 @@ func drawValue07(t *rapid.T) (any, string) {
 	mk := func() zInner {
 		return zInner{S: []string{"", "s", "x y"}[sim.Intn(t, 3, "zs")], N: sim.Intn(t, 3, "zn"), F: []float64{0, 1.5}[sim.Intn(t, 2, "zf")]}
 	}
-	switch sim.Weighted(t, "valkind", 5, 2, 2, 1, 1, 1, 1) {
+	dd := func(v any) string { return derefAll(reflect.ValueOf(v)) } // (no pointer values in descriptions: they go into the case key)
+	mkItem := func() zItem {
+		it := zItem{Stamp: zStamp{sim.Intn(t, 3, "sec")}, Txt: zText{[]string{"", "t"}[sim.Intn(t, 2, "txt")]}, Simp: zSimp{sim.Intn(t, 2, "simp")}, Val: zValM{sim.Intn(t, 2, "valm")}, N: sim.Intn(t, 2, "n")}
+		if sim.Bool(t, "ps") {
+			it.PS = &zStamp{7}
+		}
+		return it
+	}
+	switch sim.Weighted(t, "valkind", 5, 2, 2, 1, 1, 1, 1, 2, 2) {
+	case 7: // a struct whose members encode themselves through pointer receivers, in every addressability
+		it := mkItem()
+		switch sim.Intn(t, 4, "itemform") {
+		case 0:
+			return &it, "&" + dd(it)
+		case 1:
+			return it, dd(it)
+		case 2:
+			v := []zItem{it, mkItem()}
+			return v, dd(v)
+		default:
+			v := []*zItem{&it}
+			return v, "[]*zItem{&" + dd(it) + "}"
+		}
+	case 8: // ... and held by value, by pointer and in containers by another struct
+		switch sim.Intn(t, 8, "holder") {
+		case 6, 7:
+			it := zItemV{Val: zValM{sim.Intn(t, 2, "valm")}, At: time.Unix(int64(sim.Intn(t, 3, "at")), 0).UTC(), N: sim.Intn(t, 2, "n")}
+			switch sim.Intn(t, 4, "vform") {
+			case 0:
+				return &it, "&" + dd(it)
+			case 1:
+				return it, dd(it)
+			case 2:
+				v := zBoxVV{Item: it, Items: []zItemV{it}}
+				return v, dd(v)
+			default:
+				v := &zBoxVV{Item: it}
+				return v, dd(v)
+			}
+		case 0:
+			v := zBoxV{Item: mkItem(), Items: []zItem{mkItem()}}
+			if sim.Bool(t, "boxaddr") {
+				return &v, "&" + dd(v)
+			}
+			return v, dd(v)
+		case 1:
+			v := zBoxA{A: [2]zItem{mkItem(), mkItem()}}
+			if sim.Bool(t, "boxaddr") {
+				return &v, "&" + dd(v)
+			}
+			return v, dd(v)
+		case 2:
+			v := zBoxM{M: map[string]zItem{"k": mkItem()}}
+			if sim.Bool(t, "boxaddr") {
+				return &v, "&" + dd(v)
+			}
+			return v, dd(v)
+		case 3:
+			it := mkItem()
+			v := zBoxP{P: &it}
+			return v, "zBoxP{P:&" + dd(it) + "}"
+		}
+		b := zBox{Item: mkItem(), A: [2]zItem{mkItem(), mkItem()}}
+		if sim.Bool(t, "boxitems") {
+			b.Items = []zItem{mkItem()}
+		}
+		if sim.Bool(t, "boxmap") {
+			b.M = map[string]zItem{"k": mkItem()}
+		}
+		if sim.Bool(t, "boxptr") {
+			it := mkItem()
+			b.P = &it
+			b.PL = []*zItem{&it}
+		}
+		desc := "zBox" + dd(b)
+		if sim.Bool(t, "boxaddr") {
+			return &b, "&" + desc
+		}
+		return b, desc
 	case 6: // larger than the default WriteLimit of the pooled writers
 		v := []any{strings.Repeat("x", 1100+sim.Intn(t, 400, "biglen")), sim.Intn(t, 3, "n")}
 		return v, fmt.Sprintf("[\"x\"*%d, %v]", len(v[0].(string)), v[1])
